@@ -817,12 +817,16 @@ fn w_ord(o: &mut String, x: Ordering) {
 fn cmp_t<T: Form + Ord + Clone>(a: &Sx, b: &Sx, o: &mut String) -> Option<()> {
     let a = T::parse(a)?;
     let b = T::parse(b)?;
-    match guard(|| (a.cmp(&b), a == b, b.cmp(&a), a.partial_cmp(&b), [a < b, a <= b, a > b, a >= b, a != b], a.clone().max(b.clone()), a.clone().min(b.clone()))) {
+    match guard(|| (a.cmp(&b), a == b, b.cmp(&a), a.partial_cmp(&b), [a < b, a <= b, a > b, a >= b, a != b], a.clone().max(b.clone()), a.clone().min(b.clone()), {
+        // `clamp` too: within the range spanned by the two (ordered by `cmp`) each stays what it is, and the bounds clamp to themselves
+        let (lo, hi) = if a.cmp(&b) == Ordering::Greater { (b.clone(), a.clone()) } else { (a.clone(), b.clone()) };
+        a.clone().clamp(lo.clone(), hi.clone()) == a && b.clone().clamp(lo.clone(), hi.clone()) == b && a.clone().clamp(hi.clone(), hi.clone()) == hi && b.clone().clamp(lo.clone(), lo.clone()) == lo
+    })) {
         None => o.push_str("panic"),
-        Some((ab, eq, ba, pc, rel, mx, mn)) => {
+        Some((ab, eq, ba, pc, rel, mx, mn, clamp_ok)) => {
             // `max` / `min` are provided methods of `Ord` that an impl can override: they must pick by `cmp`
             let (want_mx, want_mn) = if ab == Ordering::Greater { (&a, &b) } else { (&b, &a) };
-            let pc = if mx == *want_mx && mn == *want_mn { pc } else { None };
+            let pc = if mx == *want_mx && mn == *want_mn && clamp_ok { pc } else { None };
             // the comparison operators and `!=` are methods of their own (`lt`, `le`, `gt`, `ge`, `ne` can be overridden): each must
             // say what `cmp` / `==` say
             let want = [ab == Ordering::Less, ab != Ordering::Greater, ab == Ordering::Greater, ab != Ordering::Less, !eq];
